@@ -284,6 +284,17 @@ DelFile(s) == IF DelFileOk(s)
               THEN [DelFileTables(DelFileChunks(DelFileHead(s))) EXCEPT !.del = ~Running(s), !.ddel = ~Running(s), !.late = {}]
               ELSE DelFileHead(s)
 
+\* A data chunk c is fetched from A under the file's context (netstore.Get -> retrieval -> OnChunkRetrieved at the
+\* requester, OnChunkTransferred at A).  Only while the pyramid is registered (otherwise the retrieval first starts a
+\* pyramid exchange of its own, which is not modelled) and the chunk is not stored yet.
+CanRetrieve(s, me, c) == s.pyr /\ me \in s.ctd /\ c \notin s.st
+Retrieved(s, me, c) ==
+  LET fresh == \A o \in s.sd : c \notin s.sv[o]
+  IN [s EXCEPT !.st = @ \cup {c}, !.ct = [@ EXCEPT ![me] = @ \cup {c}], !.keys = @ \cup {<<"chunk", me>>} \cup (IF fresh THEN {<<"sourceChunk", "A">>} ELSE {}),
+               !.psrc = IF @ = NoNode THEN "A" ELSE @,
+               !.sd = IF fresh THEN @ \cup {"A"} ELSE @, !.sv = IF fresh THEN [@ EXCEPT !["A"] = @ \cup {c}] ELSE @]
+Served(a, to, c) == [a EXCEPT !.ctd = @ \cup {to}, !.ct = [@ EXCEPT ![to] = @ \cup {c}], !.keys = @ \cup {<<"chunk", to>>}]
+
 \* timeouttrigger.go: the ticker handles the expired trigger of overlay o
 Timeout(s, o) ==
   IF s.hasq
@@ -376,6 +387,10 @@ DoDelDiscover(n) == Alive(n) /\ Idle(n) /\ Apply(n, R(DelDiscover(ns[n]), <<>>),
 DoDelFile(n) == Alive(n) /\ Idle(n) /\ Apply(n, R(DelFile(ns[n]), <<>>), msgs)
 DoTimeout(n, o) == Alive(n) /\ Idle(n) /\ o \in ns[n].trig /\ Apply(n, R(Timeout(ns[n], o), <<>>), msgs)
 
+DoRetrieve(n, c) == /\ Alive(n) /\ Idle(n) /\ n # "A" /\ par.topo # "relay" /\ c \in IdxOf(par.file) /\ CanRetrieve(ns[n], n, c)
+                    /\ ns' = [ns EXCEPT ![n] = Retrieved(ns[n], n, c), !["A"] = Served(ns["A"], n, c)]
+                    /\ UNCHANGED <<par, msgs>>
+
 DoPark(i) == LET m == msgs[i] IN
              /\ m.t \in Real /\ Alive(m.t) /\ CanPark(ns[m.t], m.t, m)
              /\ Apply(m.t, R(ParkResp(ns[m.t], m.t, m), <<>>), Without(msgs, i))
@@ -387,6 +402,7 @@ DoRelease(n) == /\ Alive(n) /\ ns[n].mid
 Next == \/ \E n \in {"B"} : DoInit(n) \/ DoTick(n) \/ DoCancel(n) \/ DoDelDiscover(n) \/ DoDelFile(n)
                             \/ DoRelease(n) \/ DoAsyncDel(n, TRUE) \/ DoAsyncDel(n, FALSE)
         \/ \E n \in {"B"}, o \in Node : DoTimeout(n, o)
+        \/ \E n \in {"B"}, c \in 1..2 : DoRetrieve(n, c)
         \/ \E i \in DOMAIN msgs : Deliver(i) \/ Dup(i) \/ Drop(i) \/ DoPark(i)
 
 Spec == Init /\ [][Next]_vars
